@@ -41,6 +41,15 @@ pub fn programs13() -> Vec<Prog> {
     v.push(mk("at-x0000", Some(0x0000)));
     // origin above xFE00: [origin, xFE00) is empty, every write must be refused
     v.push(mk("at-xFF00", Some(0xFF00)));
+    // labels more than x8000 words from the origin (index 7): `data` at xF000 of a program at x3000
+    let mut p = Program::default();
+    p.push(Some("first"), Stmt::Add(1, 1, Src2::Imm(Lit::dec(1))));
+    p.push(Some("second"), Stmt::Add(2, 2, Src2::Imm(Lit::dec(2))));
+    p.push(Some("end"), Stmt::Named(0x25, "halt"));
+    p.push(Some("pad"), Stmt::Blkw(Lit::hex(0xBFFD)));
+    p.push(Some("data"), Stmt::Fill(Lit::hex(0x1234)));
+    p.push(Some("last"), Stmt::Fill(Lit::hex(0x5678)));
+    v.push(Prog::new("label-xC000-words-from-origin", p, true));
     v
 }
 
